@@ -194,8 +194,11 @@ def check_case(case):
     dcases = [tuple(c) for c in cs] if cs else None
 
     def make_farmer(root):
+        import copy
+
+        # (each farmer gets private copies of the description)
         r = xyz.Runner(f, fn_args=argnames if far != "sampler" else None,
-                       **rkw)
+                       **copy.deepcopy(rkw))
         if far.startswith("harv"):
             eng = "joblib" if far == "harv-jl" else "h5netcdf"
             return xyz.Harvester(r, data_name=os.path.join(root, "data"),
